@@ -603,4 +603,3 @@ func decodedInto(newCall *ssa.Call) bool {
 	walk(newCall, 0)
 	return found
 }
-
